@@ -3,4 +3,6 @@
 cd "$(dirname "$0")"
 ./bootstrap.sh >&2 || exit 3
 export PYTHONHASHSEED=0
+# VERIF_REPO_SRC: analyse another checkout of the repository (used only by background sweeps on a /repo snapshot)
+if [ -n "${VERIF_REPO_SRC:-}" ]; then export PYTHONPATH="$VERIF_REPO_SRC"; fi
 exec /verif/.venv/bin/python -m engine.main "$@"
